@@ -538,6 +538,109 @@ impl B {
         }
     }
 
+    /// One finder shared before its first use: one thread makes the first
+    /// search while the others copy it (`as_ref`, `clone`, an iterator) and
+    /// search through the copy. Whatever a finder builds lazily must be
+    /// complete in every copy, whenever the copy is taken.
+    fn scn_copy_vs_first_use(&mut self) {
+        if self.full() || self.threads.len() < 2 {
+            return;
+        }
+        let nlen = self.rng.range(2, 12);
+        let alpha = inputs::alphabet(&mut self.rng);
+        let needle_b = inputs::word(&mut self.rng, nlen, &alpha);
+        let hlen = self.rng.range(16, 30);
+        let mut hay_b: Vec<u8> = inputs::word(&mut self.rng, hlen, &alpha);
+        let at = self.rng.range(0, hay_b.len() - nlen);
+        hay_b[at..at + nlen].copy_from_slice(&needle_b);
+        let rev = self.rng.chance(2, 3);
+        let needle = self.buf(needle_b, None);
+        let hay = self.buf(hay_b, None);
+        let cfg = self.finder_cfg();
+        let f = self.slot(0);
+        self.push(0, Op::FinderNew { rev, needle, cfg, dst: f });
+        let n = self.threads.len();
+        let mut holders = vec![(0usize, f)];
+        for to in 1..n {
+            self.push(0, Op::Share { s: f, to });
+            let rd = self.slot(to);
+            self.push(to, Op::Recv { from: 0, dst: rd });
+            holders.push((to, rd));
+        }
+        let first = self.rng.usize_below(n);
+        for &(th, s) in &holders {
+            if th == first {
+                self.push(th, Op::FinderFind { f: s, hay, via_ref: false });
+                continue;
+            }
+            match self.rng.below(3) {
+                0 => self.push(th, Op::FinderFind { f: s, hay, via_ref: true }),
+                1 => {
+                    let d = self.slot(th);
+                    self.push(th, Op::FinderClone { f: s, dst: d });
+                    self.push(th, Op::FinderFind { f: d, hay, via_ref: false });
+                    self.push(th, Op::Drop { s: d });
+                }
+                _ => {
+                    let it = self.slot(th);
+                    self.push(th, Op::FIterNew { f: Some(s), rev, hay, needle, dst: it });
+                    self.push(th, Op::FIterNext { it });
+                    self.push(th, Op::FIterNext { it });
+                    self.push(th, Op::Drop { s: it });
+                }
+            }
+        }
+        for &(th, s) in &holders {
+            self.push(th, Op::FinderFind { f: s, hay, via_ref: false });
+            self.push(th, Op::Drop { s });
+        }
+    }
+
+    /// Every thread builds finders for its own long needle at the same time,
+    /// then for the others': whatever construction shares between finders
+    /// (a memo, a table) is written by several threads at once.
+    fn scn_concurrent_construction(&mut self) {
+        if self.full() || self.threads.len() < 2 {
+            return;
+        }
+        let n = self.threads.len();
+        let len = self.rng.range(128, 150);
+        let alpha = inputs::alphabet(&mut self.rng);
+        let base = inputs::structured(&mut self.rng, len, &alpha);
+        let rev = self.rng.chance(2, 3);
+        let mut needles = Vec::new();
+        let mut hays = Vec::new();
+        for t in 0..n {
+            let mut nb = base.clone();
+            // same length, different period structure
+            let at = self.rng.usize_below(len);
+            nb[at] = nb[at].wrapping_add(1 + t as u8);
+            if t % 2 == 1 {
+                nb.rotate_left(len / 3);
+            }
+            let plen = self.rng.range(4, 24);
+            let mut h = inputs::word(&mut self.rng, plen, &alpha);
+            h.extend_from_slice(&nb);
+            h.extend_from_slice(&nb[..len / 2]);
+            hays.push(self.buf(h, None));
+            needles.push(self.buf(nb, None));
+        }
+        let cfg = FinderCfg { prefilter: true, ranker: Ranker::Default };
+        for round in 0..3 {
+            for t in 0..n {
+                let which = match round {
+                    0 | 1 => t,
+                    _ => (t + 1) % n,
+                };
+                let f = self.slot(t);
+                self.push(t, Op::FinderNew { rev, needle: needles[which], cfg: cfg.clone(), dst: f });
+                self.push(t, Op::FinderFind { f, hay: hays[which], via_ref: false });
+                self.push(t, Op::FinderFind { f, hay: hays[(which + 1) % n], via_ref: false });
+                self.push(t, Op::Drop { s: f });
+            }
+        }
+    }
+
     /// Counting over a large, regular haystack (fixed-width records, constant
     /// fill): tens of thousands of matches, the same lane matching in hundreds
     /// of consecutive vectors.
@@ -1082,8 +1185,11 @@ pub fn generate(profile: Profile, verif_seed: u64, index: u64, tgt: Target) -> F
                     b.scn_byte_oneshots(t, 1, true, false, 40);
                 }
             }
-            if b.rng.chance(2, 3) {
-                b.scn_shared_finder_race(40, 40, 2);
+            match b.rng.below(6) {
+                0 | 1 => b.scn_shared_finder_race(40, 40, 2),
+                2 | 3 => b.scn_copy_vs_first_use(),
+                4 => b.scn_concurrent_construction(),
+                _ => {}
             }
             env.dispatch = Dispatch::Fresh;
             let reference =
@@ -1115,7 +1221,9 @@ pub fn generate(profile: Profile, verif_seed: u64, index: u64, tgt: Target) -> F
             for _ in 0..scen {
                 let t = b.rng.usize_below(nthreads.saturating_sub(1).max(1));
                 let (mh, mn) = (b.max_hay(400), 80);
-                match b.rng.below(7) {
+                match b.rng.below(9) {
+                    7 => b.scn_copy_vs_first_use(),
+                    8 => b.scn_concurrent_construction(),
                     0 => b.scn_byte_iter(t, false, true, mh),
                     1 => b.scn_finder_reuse(t, mh, mn, false),
                     2 => b.scn_sub_iter(t, mh, mn, false),
